@@ -325,6 +325,12 @@ mzd_t *mzd_from_jcf(const char *fn, int verbose) {
     goto from_jcf_close_fh;
   }
 
+  if (m < 0 || n < 0) {
+    if (verbose) printf("Negative dimensions %d x %d\n", m, n);
+    retval = 1;
+    goto from_jcf_close_fh;
+  }
+
   if (verbose)
     printf("reading %lu x %lu matrix with at most %ld non-zero entries (density at most: %6.5f)\n",
            (unsigned long)m, (unsigned long)n, (unsigned long)nonzero,
